@@ -52,6 +52,9 @@ def import_osyris():
     f = os.path.abspath(osyris.__file__)
     if not f.startswith(st["src"] + os.sep):
         raise RuntimeError(f"osyris imported from {f}, expected under {st['src']}")
+    if not st.get("calibrated"):
+        from . import unitmodel
+        st["calibrated"] = unitmodel.calibrate(osyris)
     return osyris
 
 
